@@ -18,7 +18,7 @@ pub fn random_config(rng: &mut Rng, syn: &str, allow_sort: bool) -> Vec<String> 
     w
 }
 
-pub struct Opts { pub trace: bool, pub nf: bool, pub tokens: bool, pub idem: bool, pub ranges: bool, pub sort: bool, pub cfgs: usize, pub wide_only: bool }
+pub struct Opts { pub trace: bool, pub nf: bool, pub tokens: bool, pub idem: bool, pub ranges: bool, pub sort: bool, pub cfgs: usize, pub wide_only: bool, pub calls: bool }
 
 pub fn run_case(out: &mut dyn std::io::Write, id: &str, syn: &str, words: &[String], range: Option<(usize, usize)>, src: &str, o: &Opts) {
     let wrefs: Vec<&str> = words.iter().map(|s| s.as_str()).collect();
@@ -53,6 +53,14 @@ pub fn run_case(out: &mut dyn std::io::Write, id: &str, syn: &str, words: &[Stri
                     _ => writeln!(out, "NF {} unavailable", id).unwrap(),
                 }
             }
+            if o.calls {
+                for (tag, text) in [("src", src), ("out", t.as_str())] {
+                    match full_moon::parse_fallible(text, v.into()).into_result() {
+                        Ok(ast) => writeln!(out, "CL {} {} {}", id, tag, crate::calls::observe(&ast)).unwrap(),
+                        Err(_) => writeln!(out, "CL {} {} ERROR", id, tag).unwrap(),
+                    }
+                }
+            }
             if o.tokens {
                 for (tag, text) in [("src", src), ("out", t.as_str())] {
                     match lex(text, v) {
@@ -76,7 +84,7 @@ pub fn main(args: &[String]) {
     silence_panics();
     let (mut seed, mut n, mut shard, mut shards) = (0u64, 100usize, 0usize, 1usize);
     let mut mode = "plain".to_string();
-    let mut o = Opts { trace: false, nf: false, tokens: false, idem: false, ranges: false, sort: false, cfgs: 2, wide_only: false };
+    let mut o = Opts { trace: false, nf: false, tokens: false, idem: false, ranges: false, sort: false, cfgs: 2, wide_only: false, calls: false };
     let mut dirs: Vec<String> = vec![];
     let mut skip_directives = false;
     let mut one: Option<(String, String, String, String)> = None;
@@ -92,6 +100,7 @@ pub fn main(args: &[String]) {
             "--nf" => o.nf = true,
             "--trace" => o.trace = true,
             "--idem" => o.idem = true,
+            "--calls" => o.calls = true,
             "--ranges" => o.ranges = true,
             "--sort" => o.sort = true,
             "--wide-only" => o.wide_only = true,
